@@ -926,7 +926,7 @@ class MeiParser(object):
             parts_per_measure = int(ppq * 4 * last_ts.beats / last_ts.beat_type)
             # find divs elapsed since last barline
             last_barline = list(part.iter_all(cls=pt.score.Measure))[-1]
-            duration = position - last_barline.start.t
+            duration = last_barline.start.t + parts_per_measure - position
 
         return position + duration
 
